@@ -6,6 +6,8 @@ import Vgw.Driver.Range
 import Vgw.Driver.Gw
 import Vgw.Driver.Policy
 import Vgw.Driver.BucketName
+import Vgw.Driver.Path
+import Vgw.Driver.Walk
 
 structure DriverState where
   gw : Vgw.Driver.Gw.DState := {}
@@ -16,6 +18,8 @@ def dispatch (d : DriverState) (line : String) : DriverState × String :=
   | "gw" :: rest =>
     let (g, out) := Vgw.Driver.Gw.handle d.gw rest
     ({ d with gw := g }, out.getD "bad-op")
+  | "path" :: rest => (d, (Vgw.Driver.Path.handle rest).getD "bad-op")
+  | "walk" :: rest => (d, (Vgw.Driver.Walk.handle rest).getD "bad-op")
   | "bucketname" :: rest => (d, (Vgw.Driver.BucketName.handle rest).getD "bad-op")
   | "glob" :: rest => (d, (Vgw.Driver.Policy.globHandle rest).getD "bad-op")
   | "policy" :: rest => (d, (Vgw.Driver.Policy.handle rest).getD "bad-op")
